@@ -41,6 +41,12 @@ def run(rep, tier):
     typestate(rep, F)
     cached_fields(rep, F)
     candidate_pairs(rep, F)
+    # the plain operand and its prepared form go through one and the same pipeline only if no operand type overrides relate() and every
+    # plain operand's graph is GeometryGraph::new(idx, GeometryCow::from(self)) - what prepare_geometry builds too (rule shared with C01)
+    from . import c01
+    from ..report import Alias
+    rep.rule("R17.5", "no Relate impl overrides relate() and every plain operand's graph is GeometryGraph::new(idx, GeometryCow::from(self)): a plain operand and its PreparedGeometry are related by the same pipeline (C01 R1.1)")
+    c01.uniform_dispatch(Alias(rep, "R17.5", " - relate() on the plain geometry and on its PreparedGeometry can then differ"), F)
 
 
 def freshness(rep, F):
